@@ -285,7 +285,8 @@ var c11Map = hx.Define("c11.map", func(c *c11MapCase, s *hx.Sub) *hx.Violation {
 		spec.E = append(spec.E, hx.SInt(int64(i*7+1)))
 	}
 	spec.R = c.Rep
-	src := "{% " + c.Tag + " kv in m %}[{{ kv[0] }}={{ kv[1] }}|{{ forloop.index }}/{{ forloop.length }}]{% end" + c.Tag + " %}"
+	// the first pair and the previous pair are kept in variables and read later: a pair is a value of its own
+	src := "{% " + c.Tag + " kv in m %}{% if forloop.first %}{% assign head = kv %}{% endif %}[{{ kv[0] }}={{ kv[1] }}|{{ forloop.index }}/{{ forloop.length }}|{{ prev[0] }}={{ prev[1] }}]{% assign prev = kv %}{% end" + c.Tag + " %}«{{ head[0] }}={{ head[1] }}»"
 	o := hx.Render(src, map[string]any{"m": spec.Realise()})
 	if o.Panic != nil {
 		return hx.V("panic@"+o.Panic.Site, "%s over %v: %v", src, c.Keys, o.Panic)
@@ -294,17 +295,30 @@ var c11Map = hx.Define("c11.map", func(c *c11MapCase, s *hx.Sub) *hx.Violation {
 		return hx.V("c11:error", "%s over %v failed: %v", src, c.Keys, o.Err)
 	}
 	text := rowTags.ReplaceAllString(o.Out, "")
+	text, head, _ := strings.Cut(text, "«")
+	head = strings.TrimSuffix(head, "»")
 	recs := strings.Split(strings.TrimSuffix(strings.TrimPrefix(text, "["), "]"), "][")
 	if text == "" {
 		recs = nil
 	}
 	var got, want []string
+	prev := "="
 	for i, r := range recs {
-		kv, pos, _ := strings.Cut(r, "|")
-		got = append(got, kv)
-		if pos != fmt.Sprintf("%d/%d", i+1, len(c.Keys)) {
+		f := strings.Split(r, "|")
+		if len(f) != 3 {
+			return hx.V("c11:map-forloop", "%s over map with keys %v rendered %q", src, c.Keys, o.Out)
+		}
+		got = append(got, f[0])
+		if f[1] != fmt.Sprintf("%d/%d", i+1, len(c.Keys)) {
 			return hx.V("c11:map-forloop", "%s over map with keys %v rendered %q: forloop fields are inconsistent", src, c.Keys, o.Out)
 		}
+		if f[2] != prev {
+			return hx.V("c11:map-pair-kept", "%s over map with keys %v rendered %q: in iteration %d the pair kept from the previous iteration reads %q, it was %q", src, c.Keys, o.Out, i+1, f[2], prev)
+		}
+		prev = f[0]
+	}
+	if first := append(got, "=")[0]; head != first {
+		return hx.V("c11:map-pair-kept", "%s over map with keys %v rendered %q: the first pair, kept in a variable, reads %q after the loop; it was %q", src, c.Keys, o.Out, head, first)
 	}
 	for i, k := range c.Keys {
 		want = append(want, fmt.Sprintf("%s=%d", k, i*7+1))
